@@ -82,6 +82,11 @@ func (g *gen) e2op(kind string, nh int) Op {
 		op = Op{Kind: kind, Key: g.keys[g.r.Intn(len(g.keys))], Coll: g.r.Intn(g.ncoll), XNames: append(append([]string{}, allXattrNames...), "$document")}
 	case "GetSubDocRaw":
 		op = Op{Kind: kind, Key: g.keys[g.r.Intn(len(g.keys))], Coll: g.r.Intn(g.ncoll), Path: g.subPath()}
+	case "View":
+		// (plain parameters only: sg-bucket, a trusted dependency, panics on group_level over keys that
+		// are not arrays, and a concurrent run does not know which map function the view has by then)
+		op = Op{Kind: kind, Coll: 0, Key: []string{"dd1", "dd2"}[g.r.Intn(2)], Path: []string{"v1", "v2"}[g.r.Intn(2)],
+			Body: strp([]string{`{"stale":false}`, `{"stale":"ok"}`, `{"stale":false,"reduce":false}`, `{"stale":false,"descending":true,"limit":2}`}[g.r.Intn(4)])}
 	default:
 		op = g.op(kind)
 	}
